@@ -32,6 +32,8 @@ type GenParams struct {
 	FinalReopen            bool // end with a caught-up reopen
 	Idle                   bool // use idle merger cycles
 	NoPersistSteps         bool
+	Lean                   bool     // no merger cycle without a new batch, no drain: an empty hand-over makes mossStore run a full (idle) compaction
+	PersistAfterBatchPct   int      // percentage of batches followed by a directed merge + persist
 	FirstWide              int      // the first batch gets this many extra generated keys (big-then-small histories)
 	QuietPct               int      // percentage of programs whose monitors run only at explicit check points
 	SkewedWide             bool     // wide keys with skewed lengths (long keys sorting first), for key-index windows
@@ -80,6 +82,33 @@ func GenConfig(r *Rng, backing string, merge bool) Config {
 		c.MaxDirtyKeyValBytes = uint64(r.Pick(10, 100, 100000))
 	}
 	return c
+}
+
+// PartialCompactionProfile turns a store configuration and its generator
+// parameters into one that produces partial (leveled, same-file)
+// compactions: few segments per level, a small multiplier, the
+// fragmentation threshold out of the way (page padding otherwise makes tiny
+// files look fragmented and every compaction a full one), a big first batch
+// and a persistence round after most batches.
+func PartialCompactionProfile(r *Rng, cfg *Config, gp *GenParams) {
+	if cfg.Backing != "store" {
+		return
+	}
+	cfg.Concern = 1
+	cfg.LevelMaxSegments = r.Pick(2, 2, 3)
+	cfg.LevelMultiplier = r.Pick(2, 3, 3)
+	cfg.CompactionPercentage = 100
+	cfg.MaxDirtyOps, cfg.MaxDirtyKeyValBytes = 0, 0
+	gp.FirstWide = 300 + r.Intn(600)
+	gp.PersistAfterBatchPct = 85
+	gp.Lean = true
+	gp.Idle = false
+	if gp.MaxBatches < 10 {
+		gp.MaxBatches = 10
+	}
+	if gp.MinBatches < 6 {
+		gp.MinBatches = 6
+	}
 }
 
 type genState struct {
@@ -386,12 +415,17 @@ func GenProgram(r *Rng, prop string, cfg Config, gp GenParams) *Program {
 		}
 		return "plain"
 	}
+	fresh := false // a batch was generated since the last merger cycle
 	bgSteps := func() {
 		n := r.Intn(4)
 		for i := 0; i < n; i++ {
 			x := r.Intn(10)
+			if gp.Lean && (x >= 9 || (x < 5 && !fresh)) {
+				continue
+			}
 			switch {
 			case x < 5:
+				fresh = false
 				s := Step{K: "merge", A: mergeKind()}
 				if gp.Park && r.Chance(1, 3) {
 					s.P = mergerParks[r.Intn(len(mergerParks))]
@@ -504,6 +538,12 @@ func GenProgram(r *Rng, prop string, cfg Config, gp GenParams) *Program {
 			add(Step{K: "batch", B: g.batch()})
 		}
 		handleSteps()
+		fresh = true
+		if gp.PersistAfterBatchPct > 0 && lower && r.Intn(100) < gp.PersistAfterBatchPct {
+			add(Step{K: "merge", A: "plain"})
+			add(Step{K: "persist"})
+			fresh = false
+		}
 		bgSteps()
 		if store && gp.Reopen && r.Chance(1, 7) {
 			kind := "caughtup"
